@@ -248,9 +248,15 @@ def search(ctx, rng, budget):
             C[n // 2, m // 2] = 1.0
             mg0, mg1 = min(mg0, n // 2, (n - 1) // 2), min(mg1, m // 2, (m - 1) // 2)
         a, b = int(rng.integers(-mg0, mg0 + 1)), int(rng.integers(-mg1, mg1 + 1))
-        fac = float(rng.uniform(0.01, 100)) if rng.random() < 0.7 else float(2 ** int(rng.integers(-8, 9)))
+        integer_valued = bool(np.all(C == np.round(C)))
+        fac_any = float(rng.uniform(0.01, 100)) if rng.random() < 0.7 else float(2 ** int(rng.integers(-8, 9)))
+        # the convolution method compares floating-point sums: only factors that scale every sum exactly
+        # (powers of two; small integers on integer-valued content) keep exact ties tied
+        fac_exact = float(rng.integers(2, 50)) if (integer_valued and rng.random() < 0.5) \
+            else float(2 ** int(rng.integers(-8, 9)))
         for meth in METHODS:
             tol = TOL[meth] * max(n, m)
+            fac = fac_exact if meth == 'convolution' else fac_any
             try:
                 o = [float(v) for v in find_origin(C, method=meth, axes=axes)]
                 C2 = np.roll(np.roll(C, a, axis=0), b, axis=1)
@@ -323,7 +329,7 @@ def run(ctx):
                    rule='search: random shapes 1..40 (every 25th: 100..300), axes 0 / 1 / (0,1): (1) real-valued content '
                         'mirrored about a centre of the half-pixel grid within 2 px of the middle -> com (1e-9*size) and '
                         'convolution (exact); (2) content with empty margins rolled by whole pixels, (3) multiplied by a '
-                        'positive factor, (4) image_center, (5) coordinates of axes not requested, for image_center / com / '
+                        'positive factor (convolution: powers of two, or small integers on integer content, so that exact ties stay tied in binary64), (4) image_center, (5) coordinates of axes not requested, for image_center / com / '
                         'convolution; (6) noiseless Gaussian spots for the gaussian method (1e-6 px). distinct = (clause '
                         'family, method, axes, parities, centre parities or shift signs); correspondence cases counted in '
                         'evaluations only',
